@@ -3,6 +3,7 @@ package rules
 
 import (
 	"fmt"
+	"go/token"
 	"sort"
 	"strings"
 
@@ -144,6 +145,57 @@ func Common(id string, p *core.Prog, r *core.Report) {
 	}
 	if nn == 0 {
 		r.Hold(id+".x", "no-nil-without-error-deref", "", "no result that can be nil without an error is dereferenced untested")
+	}
+
+	// an element removed in place at the loop index is followed by the next index: the element that moved into the gap
+	// is never looked at (s = append(s[:i], s[i+1:]...) and then i++ without i--)
+	nr := 0
+	for _, f := range fns {
+		core.EachInstr(f, func(in ssa.Instruction) {
+			c, ok := in.(*ssa.Call)
+			if !ok || len(c.Call.Args) != 2 {
+				return
+			}
+			if b, ok := c.Call.Value.(*ssa.Builtin); !ok || b.Name() != "append" {
+				return
+			}
+			lo, ok1 := c.Call.Args[0].(*ssa.Slice)
+			hi, ok2 := c.Call.Args[1].(*ssa.Slice)
+			if !ok1 || !ok2 || lo.Low != nil || lo.High == nil || hi.High != nil || hi.Low == nil {
+				return
+			}
+			i := lo.High
+			nx, ok := hi.Low.(*ssa.BinOp)
+			if !ok || nx.Op != token.ADD || nx.X != i || !core.IsIntConst(nx.Y, 1) {
+				return
+			}
+			// the loop variable behind i, and the instruction that advances it
+			var phi *ssa.Phi
+			var advance ssa.Instruction
+			switch x := i.(type) {
+			case *ssa.Phi: // for i := 0; …; i++
+				for _, e := range x.Edges {
+					if b, ok := e.(*ssa.BinOp); ok && b.Op == token.ADD && b.X == ssa.Value(x) && core.IsIntConst(b.Y, 1) {
+						phi, advance = x, b
+					}
+				}
+			case *ssa.BinOp: // for i := range s
+				if ph, ok := x.X.(*ssa.Phi); ok && x.Op == token.ADD && ph.Comment == "rangeindex" {
+					phi, advance = ph, x
+				}
+			}
+			if phi == nil {
+				return
+			}
+			w := core.PathQuery{Fn: f, From: in, Target: func(x ssa.Instruction) bool { return x == advance }}.Find()
+			if w != nil {
+				nr++
+				r.Violate(id+".x", fmt.Sprintf("%s|remove-while-iterating#%d", core.FnKey(f), nr), p.Pos(c.Pos()), "the element at the loop index is removed in place and the loop then moves on to the next index: the element that slid into the gap is never examined (two offenders in a row: the second one stays)", p.WitnessText(w)...)
+			}
+		})
+	}
+	if nr == 0 {
+		r.Hold(id+".x", "no-remove-while-iterating", "", "no in-place removal at the loop index that is followed by the next index")
 	}
 
 	// wait groups balance; fan-outs do not run under a fail-fast (errgroup) context; coalesced requests are keyed by the request
